@@ -40,6 +40,7 @@ const char *vh_errclass(int e);
 /* error callback accounting */
 extern int vh_cb_errors, vh_cb_warnings;
 extern int vh_cb_last_category;
+extern char vh_cb_last_msg[600];
 void vh_error_fn(const char *message, void *arg, vnaerr_category_t category);
 void vh_cb_reset(void);
 
